@@ -23,7 +23,7 @@ use crate::{
     osu::{self, Profile},
     rng::{hash_str, Rng},
     runner::{guard, Ctx},
-    sets::{self, ScoreSpec, SetDomain, SetSpec},
+    sets::{self, ScoreSpec, SetSpec},
 };
 
 #[derive(Clone, Debug)]
@@ -311,7 +311,7 @@ pub fn case(ctx: &mut Ctx, idx: u64) {
             // few maps, many jobs: the same map is worked on by several threads at once
             let map = rng.usize_below(pool.len().min(3));
             let mode = *rng.pick(&maps::reachable_modes(&pool[map]));
-            let mut spec = sets::gen_setspec(&mut rng, mode, SetDomain::Game);
+            let mut spec = sets::gen_setspec_wide(&mut rng, mode, &pool[map]);
             if rng.chance(0.2) {
                 spec.passed = Some(rng.below(pool[map].hit_objects.len() as u64 + 2) as u32);
             }
@@ -331,7 +331,7 @@ pub fn case(ctx: &mut Ctx, idx: u64) {
         let modes = maps::reachable_modes(&pool[0]);
         let mode = modes[(idx as usize) % modes.len()];
         let kind = [0u8, 0, 2, 4, 1][(idx as usize / 4) % 5];
-        let mut spec = sets::gen_setspec(&mut rng, mode, SetDomain::Game);
+        let mut spec = sets::gen_setspec_wide(&mut rng, mode, &pool[0]);
         if idx % 2 == 0 {
             spec = SetSpec::default();
         }
@@ -523,7 +523,7 @@ pub fn case(ctx: &mut Ctx, idx: u64) {
             let mi = rng.usize_below(shared.len());
             let map = &shared[mi];
             let mode = *rng.pick(&maps::reachable_modes(map));
-            let spec = sets::gen_setspec(&mut rng, mode, SetDomain::Game);
+            let spec = sets::gen_setspec_wide(&mut rng, mode, map);
             let mut r2 = rng.fork();
             match guard(|| handover(&mut r2, map, mode, &spec, small)) {
                 Ok(Ok((chains, hand))) => {
